@@ -761,6 +761,23 @@ def insert_after_pattern(text, pattern, insertion, fn_name, before=False, nth=1,
                     j -= 1
                 if j < 0 or toks[j].text != "{":
                     break
+                # is that block a branch of an `if`?  (walk back over the condition)
+                kk = j - 1; dd = 0; is_if = False
+                while kk >= 0:
+                    x = toks[kk]
+                    if x.kind == "punct" and x.text in CLOSE: dd += 1
+                    elif x.kind == "punct" and x.text in OPEN:
+                        if dd == 0: break
+                        dd -= 1
+                    elif dd == 0 and x.kind == "punct" and x.text in (";", "=>", ","): break
+                    elif dd == 0 and x.kind == "ident" and x.text in ("if", "else"):
+                        is_if = True; break
+                    elif dd == 0 and x.kind == "ident" and x.text in ("match", "while", "loop", "for"): break
+                    kk -= 1
+                if not is_if:
+                    # the statement sits directly in an arm / loop / function body: right after the statement itself
+                    at = s_idx[a + len(pat) - 1] + 1
+                    return "".join(t.text for t in toks[:at]) + insertion + "".join(t.text for t in toks[at:])
                 e = match_close(toks, j)
                 while True:
                     n1 = _next_sig(toks, e + 1)
